@@ -1,5 +1,6 @@
 import PrioModel.Ctor
 import PrioModel.Prio3
+import PrioProofs.FlpTotal
 import Mathlib.Tactic.Ring
 import Mathlib.Tactic.Linarith
 import Mathlib.Data.Nat.Log
@@ -805,5 +806,50 @@ theorem verifyInit_no_panic (C : FieldCtx F) (cfg : Cfg) (cv : Conv F) (xof : Xo
         | panic => exact absurd hss hst
         | err => simp
         | ok s => simp
+
+/-! ### without hypotheses on `decide`: over a field, `verifier_shares_to_message` never panics -/
+
+section field
+variable {K : Type} [Field K] [BEq K]
+
+theorem decideAll_no_panic (C : FieldCtx K) (cfg : Cfg) (vs : List K) : decideAll C cfg vs ≠ .panic := by
+  unfold decideAll
+  have key : ∀ (l : List Nat) (st : Prio.Res Bool), st ≠ .panic →
+      l.foldl (fun st pi =>
+        match st with
+        | Prio.Res.ok true =>
+          match Prio.Flp.decide C cfg.t (chunk vs pi cfg.t.verifierLen) with
+          | .ok b => Prio.Res.ok b
+          | .err => Prio.Res.err
+          | .panic => Prio.Res.panic
+        | e => e) st ≠ .panic := by
+    intro l
+    induction l with
+    | nil => intro st h; simpa using h
+    | cons a r ih =>
+      intro st h
+      rw [List.foldl_cons]
+      apply ih
+      cases st with
+      | panic => exact absurd rfl h
+      | err => simp
+      | ok b =>
+        cases b with
+        | false => simp
+        | true =>
+          simp only
+          have := Prio.Flp.decide_no_panic C cfg.t (chunk vs a cfg.t.verifierLen)
+          cases hd : Prio.Flp.decide C cfg.t (chunk vs a cfg.t.verifierLen) with
+          | panic => exact absurd hd this
+          | err => simp
+          | ok x => simp
+  exact key _ _ (by simp)
+
+/-- **`verifier_shares_to_message` never panics**, for any list of verifier shares whatsoever -/
+theorem sharesToMessage_total (C : FieldCtx K) (cfg : Cfg) (xof : Xof) (ctx : Prio.Prio3.Bytes)
+    (shares : List (VerifierShare K)) : sharesToMessage C cfg xof ctx shares ≠ .panic :=
+  sharesToMessage_no_panic C cfg xof ctx shares (decideAll_no_panic C cfg)
+
+end field
 
 end Props.C16
